@@ -50,7 +50,7 @@ func T(path string) Tmpl {
 }
 
 // KeyAlphabet are the string key values the generators draw from.
-var KeyAlphabet = []string{"a", "b", "a/b", "a_b", "a b", "x:y", "k=v", "[z]", "eth1", "eth10", "c.d", "*", "cfg"} // cfg: also the name of a child container of l1
+var KeyAlphabet = []string{"a", "b", "a/b", "a_b", "a b", "x:y", "k=v", "[z]", "eth1", "eth10", "c.d", "*", "cfg", "a+b", "(x|y)", "fe80::1", "^a$"} // cfg: also the name of a child container of l1
 
 var numKeyValues = []string{"1", "2", "10"}
 
